@@ -28,6 +28,7 @@ SHAPES = [
     ("none", [], 0), ("empty-pattern", [""], 0), ("one", ["CC"], 2), ("two", ["CC", "O"], 3),
     ("lead-empty", ["", "CC"], 2), ("trail-empty", ["CC", ""], 2), ("failed", [], 0),
     ("big", ["CCC"], 3), ("small-first", ["C", "CC"], 3),
+    ("duplicate", ["CC", "CC"], 4),      # two molecules with the identical pattern string
 ]
 
 
@@ -248,7 +249,7 @@ def run(tier, seed):
     # (i)
     all_shapes = list(range(len(SHAPES)))
     jobs = [{"n_rx": 1, "shapes": all_shapes, "first": [s]} for s in all_shapes]
-    two = all_shapes if thorough else [0, 1, 2, 3, 4, 6]
+    two = all_shapes if thorough else [0, 1, 2, 3, 4, 6, 9]
     jobs += [{"n_rx": 2, "shapes": two, "first": list(f)} for f in itertools.product(two, repeat=2)]
     jobs += [{"n_rx": 3, "shapes": [0, 2, 3, 4], "first": list(f)} for f in itertools.product([0, 2, 3, 4], repeat=3)] if thorough else []
     rt = pmap("checks.c10:tables_job", jobs, chunk=1, seed=seed, timeout=7200)
@@ -308,7 +309,7 @@ def run(tier, seed):
         "corpus_reactions_searched": n_corpus,
         "evaluations": n_tables + len(subs) + n_exec,
         "distinct_nontrivial": n_tables + n_clean,
-        "rule": "(i) every table of 3 conditions x 1 reaction over 9 entry shapes and x 2 reactions over {} shapes{} through "
+        "rule": "(i) every table of 3 conditions x 1 reaction over 10 entry shapes and x 2 reactions over {} shapes{} through "
                 "get_largest_condition vs argmax reference; (ii) every ordered sub-batch of size 1..2{} of 10 MCS-bound + 2 "
                 "solved reactions observed at MCSSearch.find inside real runs, plus every single{} task-order deviation at the "
                 "stage's Parallel calls for 3 batches{}.".format(
